@@ -215,6 +215,42 @@ def check(repo, ctx, index, purity):
     ctx.check(okc, 'R1.6', EULER, q, clamp[0][0] if clamp else f, 'the only other store to the matrix composition is the documented clamp of negative values to minComposition',
               f'matrix composition is modified by {len(clamp)} further store(s) that are not the documented negative-value clamp',
               construct='; '.join(U.src(s) for s, _ in clamp) or 'no clamp')
+    # ---------------------------------------------------------------- R1.7 no path to a return bypasses the balance
+    g0 = C.build(f)
+    dom = C.dominators(g0)
+    loop_nodes = [n for n in g0.nodes if n.kind == 'for' and n.ast is loop]
+    comp_if = [n for n in g0.nodes if n.kind == 'test' and isinstance(n.ast, ast.If) and any(st is main[0][0] for st in ast.walk(n.ast))] if main else []
+    rets0 = [n for n in g0.nodes if n.kind == 'stmt' and isinstance(n.ast, ast.Return)]
+    okdom = bool(loop_nodes) and bool(rets0) and all(loop_nodes[0].id in dom[r.id] for r in rets0) and bool(comp_if) and all(comp_if[0].id in dom[r.id] for r in rets0)
+    bypass = [r for r in rets0 if not (loop_nodes and loop_nodes[0].id in dom[r.id] and comp_if and comp_if[0].id in dom[r.id])]
+    ctx.check(okdom, 'R1.7', EULER, q, bypass[0].ast if bypass else f, 'every return of the mass balance is dominated by the phase loop and by the matrix-composition update',
+              'a return of the mass balance can be reached without recomputing the per-phase terms / the matrix composition: the record keeps the values of the previous step',
+              construct=U.src(bypass[0].ast) if bypass else 'returns dominated by the balance')
+    # ---------------------------------------------------------------- R1.6b ownership of the mass-balance slots of the record
+    OWNED = ('composition', 'volFrac', 'fconc', 'precipitateDensity')
+    n_own = 0
+    for path_, cls_ in ((EULER, MODEL), (BASE, PBASE)):
+        for qq, ff in repo.functions(path_):
+            if not qq.startswith(cls_ + '.') or qq == q:
+                continue
+            pn_ = U.params(ff)
+            seeds = set()
+            if 'Y' in pn_:
+                seeds |= {f'Y.{s_}' for s_ in OWNED}
+            if any(U.chain(n_) and U.chain(n_)[:2] == ('self', '_currY') for n_ in ast.walk(ff) if isinstance(n_, ast.Attribute)):
+                seeds |= {f'self._currY.{s_}' for s_ in OWNED}
+            if not seeds:
+                continue
+            n_own += 1
+            sites, _ = purity.analyse_seeds(path_, qq, ff, seeds)
+            sites = [s_ for s_ in sites if s_.path == path_ and s_.qual == qq]
+            if sites:
+                for s_ in sites:
+                    ctx.violation('R1.6', path_, qq, s_.node, 'a mass-balance result of the record (matrix composition / volume fraction / precipitate content / density) is modified outside the mass balance, '
+                                  f'possibly through a view ({s_.kind}): the balance no longer holds for the recorded values', construct=U.src(s_.node)[:120])
+            else:
+                ctx.ok('R1.6', path_, qq, ff, 'no write to the mass-balance slots of the record (directly or through a view)', construct=f'{qq}: slots {OWNED}')
+    ctx.floor('R1.6b', n_own, 6)
     # ---------------------------------------------------------------- R1.5 order in postProcess
     q2 = f'{PBASE}.postProcess'
     f2 = repo.func(BASE, q2)
